@@ -65,7 +65,8 @@ def requirements(tier):
             'model_values': 5000 if q else 80000,
             'model_class_values': 2000 if q else 30000,
             'model_roundtrip_loads': 1500 if q else 20000,
-            'aborted_dumps': 600 if q else 8000}
+            'aborted_dumps': 600 if q else 8000,
+            'stream_dumps': 60000 if q else 800000}
 
 
 INDENTS = [None, 0, 1, 2, 3, 4, 5, 6, 7, 8]
@@ -253,6 +254,7 @@ class Env:
     def __init__(self):
         HOOK.install()
         self.dumps = yatiml.dumps_json_function()
+        self.dump = yatiml.dump_json_function()
         self.load = yatiml.load_function()
 
 
@@ -331,6 +333,51 @@ def check_text(ctx, text, want, indent, ensure_ascii, case, label='plain'):
     return True
 
 
+class _Sink:
+    """A caller-opened stream that is no io.IOBase and has no encoding."""
+
+    def __init__(self):
+        self.parts = []
+
+    def write(self, s):
+        self.parts.append(s)
+
+    def getvalue(self):
+        return ''.join(self.parts)
+
+
+def stream_dump(ctx, dump, value, want, indent, ensure_ascii, text, case,
+                check_text, label='plain'):
+    """The statement covers dump_json as well: what it writes to an open
+    text stream (an io.StringIO, a bare object with write()) under the same
+    options is judged by the same oracle; it is the text dumps_json
+    returned, or the clause it breaks is reported."""
+    import io
+    for sink in (io.StringIO(), _Sink()):
+        try:
+            dump(value, sink, indent=indent, ensure_ascii=ensure_ascii)
+        except Exception as e:
+            ctx.violation(
+                'C07 %s dump_json-to-stream-raised %s' % (
+                    label, type(e).__name__),
+                'dump_json(v, stream) raised %s: %s although dumps_json '
+                'returned %r' % (type(e).__name__, e, text[:200]), case)
+            return
+        ctx.count('stream_dumps')
+        got = sink.getvalue()
+        if got == text:
+            continue
+        if check_text(ctx, got, want, indent, ensure_ascii, case,
+                      label + '-stream'):
+            ctx.violation(
+                'C07 %s dump_json-to-stream-differs-from-dumps_json '
+                'indent=%s ensure_ascii=%s' % (
+                    label, 'None' if indent is None else 'int', ensure_ascii),
+                'dump_json(v, stream) wrote %r, dumps_json returned %r' % (
+                    got[:200], text[:200]), case)
+        return
+
+
 def run_plain(ctx, env, value, indent, ensure_ascii, origin):
     case = {'kind': 'plain', 'value': enc(value), 'indent': indent,
             'ensure_ascii': ensure_ascii}
@@ -345,6 +392,9 @@ def run_plain(ctx, env, value, indent, ensure_ascii, origin):
         return
     report_hook(ctx, nbroken, case)
     ok = check_text(ctx, text, jproj(value), indent, ensure_ascii, case)
+    if origin == 'string' or ctx.counters['dumps'] % 7 == 0:
+        stream_dump(ctx, env.dump, value, jproj(value), indent, ensure_ascii,
+                    text, case, check_text)
     ctx.case(case, nontrivial_value(value))
     if ok and not has_dates(value):
         strs = list(plain.walk_strings(value))
